@@ -43,6 +43,30 @@ SAFE_BUILTINS = {'float', 'len', 'range', 'enumerate', 'zip', 'sum', 'tuple', 'l
 SAFE_METHODS = {'reverse', 'sort', 'split', 'rsplit', 'partition', 'strip', 'append', 'extend', 'join', 'index', 'count', 'insert', 'pop', 'copy', 'items', 'keys', 'values', 'get', 'format', 'startswith', 'endswith'}
 
 
+class Closure:
+    '''A function or lambda defined inside the interpreted fragment: called by interpreting its body over the defining environment.'''
+
+    def __init__(self, node, ex):
+        self.node = node
+        self.ex = ex
+
+    def __call__(self, *args, **kwargs):
+        a = self.node.args
+        if kwargs or a.vararg or a.kwarg or a.kwonlyargs or a.defaults or len(args) != len(a.posonlyargs + a.args):
+            raise Unsupported('call of a local function with anything but plain positional arguments')
+        inner = MiniExec(dict(self.ex.env))
+        inner.log = self.ex.log
+        for p, v in zip(a.posonlyargs + a.args, args):
+            inner.env[p.arg] = v
+        if isinstance(self.node, ast.Lambda):
+            return inner.ev(self.node.body)
+        try:
+            inner.run(self.node.body)
+        except Returned as r:
+            return r.value
+        return None
+
+
 class MiniExec:
     def __init__(self, env):
         self.env = dict(env)
@@ -147,6 +171,8 @@ class MiniExec:
             return True
         if isinstance(e, ast.IfExp):
             return self.ev(e.body, env) if self.ev(e.test, env) else self.ev(e.orelse, env)
+        if isinstance(e, ast.Lambda) and env is self.env:
+            return Closure(e, self)
         if isinstance(e, ast.Subscript):
             v = self.ev(e.value, env)
             if isinstance(e.slice, ast.Slice):
@@ -235,6 +261,8 @@ class MiniExec:
                 raise Returned(self.ev(s.value) if s.value is not None else None)
             elif isinstance(s, ast.Pass):
                 pass
+            elif isinstance(s, ast.FunctionDef) and not s.decorator_list:
+                self.env[s.name] = Closure(s, self)
             else:
                 raise Unsupported(f'statement {type(s).__name__}')
 
